@@ -115,6 +115,17 @@ func rewriteList(list []ast.Stmt) []ast.Stmt {
 				continue
 			}
 		case *ast.SendStmt:
+			// the value is evaluated before the send event: hoist anything that is not a plain name
+			if _, simple := s.Value.(*ast.Ident); !simple {
+				if _, isLit := s.Value.(*ast.BasicLit); !isLit {
+					tmp := ast.NewIdent("zzsendv")
+					assign := &ast.AssignStmt{Lhs: []ast.Expr{tmp}, Tok: token.DEFINE, Rhs: []ast.Expr{s.Value}}
+					at := gateCall("At", lit(site(s.Arrow)))
+					s.Value = tmp
+					out = append(out, &ast.BlockStmt{List: []ast.Stmt{assign, at, s, gateCall("After")}})
+					continue
+				}
+			}
 			out = append(out, gateCall("At", lit(site(s.Arrow))), s, gateCall("After"))
 			continue
 		case *ast.DeferStmt:
